@@ -11,7 +11,9 @@ VERIF = os.path.dirname(os.path.dirname(os.path.abspath(__file__)))
 
 # code the anchored files delegate to and that upholds the same property
 EXTRA = {
-    'C05': ['dataflows/processors/dumpers/formats/'],
+    # (validate is one of the observers the property names; the anchors list the others)
+    'C05': ['dataflows/processors/dumpers/formats/', 'dataflows/processors/validate.py', 'dataflows/processors/dumpers/to_path.py',
+            'dataflows/processors/dumpers/to_zip.py'],
     'C09': ['dataflows/processors/dumpers/formats/'],
     'C19': ['dataflows/processors/dumpers/formats/', 'dataflows/processors/dumpers/to_zip.py'],
     'C03': ['dataflows/processors/dumpers/formats/'],
